@@ -57,3 +57,28 @@ Theorem C01_size_chunker_chunks : forall fuel k bs, (1 <= k)%nat -> (length bs <
   concat (split_size fuel k bs) = bs /\ Forall (fun c => (1 <= length c <= k)%nat) (split_size fuel k bs).
 Proof. intros fuel k bs Hk Hf. split; [apply split_size_concat; assumption|apply split_size_chunks; assumption]. Qed.
 Print Assumptions C01_size_chunker_chunks.
+
+(* file nodes whose children carry no declared size (hand-written DAGs: the reader measures such a child by opening
+   it; File/Unsized.v): the extended reader is the reader above wherever sizes are declared, and every DAG whose
+   declared-or-measured sizes are true reads back to its content, as a whole and under every history, with its length *)
+From UV Require Import File.Unsized File.UnsizedProofs File.UnsizedFaults.
+Theorem C01_unsized_extends_sized : forall fault b, well_sized b = true ->
+  (forall off, ustream fault b off = stream fault b off) /\ usize fault b = node_length b.
+Proof. exact ustream_extends. Qed.
+Print Assumptions C01_unsized_extends_sized.
+
+Theorem C01_read_unsized : forall b, uwell b = true ->
+  fst (fst (drain_all (ustream nofault b 0) [] [])) = content b
+  /\ snd (drain_all (ustream nofault b 0) [] []) = StEOF
+  /\ (forall ops, map forget_loads (ureader_run nofault b rs0 ops) = abs_run (content b) 0 ops)
+  /\ usize nofault b = Ok (zlen (content b)).
+Proof.
+  intros b Hw. rewrite (unsized_read_all b Hw). cbn [fst snd].
+  split; [reflexivity|]. split; [reflexivity|]. split; [intros ops; apply ureader_refines_fresh; exact Hw|apply usize_ok; exact Hw].
+Qed.
+Print Assumptions C01_read_unsized.
+
+(* non-vacuity: a three-level DAG without any BlockSizes / FileSize above its leaves has true measured sizes, and a
+   DAG with declared true sizes is one *)
+Example C01_unsized_example : uwell ex_root = true /\ well_sized ex_root = false /\ (forall b, well_sized b = true -> uwell b = true).
+Proof. split; [vm_compute; reflexivity|]. split; [vm_compute; reflexivity|exact well_sized_uwell]. Qed.
